@@ -67,7 +67,13 @@ func runC08(c *Ctx) bool {
 		r := gen.New(c.Seed, 801, uint64(j))
 		f := gen.RandForest(r, []int{5, 12, 30}[r.Intn(3)], r.Range(2, 7), c08Classes, []int{0, 20}[r.Intn(2)])
 		c08Safe(f)
-		cs := &Case{Idx: idx, Kind: "random", Seed: r.Uint64()}
+		kind := "random"
+		if len(f) >= 2 && j%5 == 0 {
+			// two roots with the SAME name but different subtrees: both are verified against the same directory
+			f[len(f)-1].Name = f[0].Name
+			kind = "random-equal-roots"
+		}
+		cs := &Case{Idx: idx, Kind: kind, Seed: r.Uint64()}
 		cs.Depths, cs.Names = gen.Depths(f)
 		c.Journal(cs)
 		evalC08(c, cs)
@@ -280,6 +286,9 @@ func evalC08(c *Ctx, cs *Case) {
 	}
 	// states produced by a real Mkdir of the same tree with each extension list, and of another tree
 	for ei := range ExtLists {
+		if cs.Kind == "random-equal-roots" {
+			break
+		}
 		if cs.Kind != "exhaustive" && ei != int(cs.Seed%uint64(len(ExtLists))) {
 			continue
 		}
